@@ -318,3 +318,160 @@ def walk_bounded(ctx):
                  budget=f"{n} trees x recursive/non-recursive, seed {ctx.get('seed', 0)}", cases=cases,
                  note=f"{cases} calls agree with the contract; {nonempty} with a non-empty file set, {pruned} trees contain an "
                       f"excluded directory at the top level")]
+
+
+@custom("c14-excluded-set-native", props=["C14"])
+def excluded_set_native(ctx):
+    """BOUNDED: constant-set comparison, natively, of the two exclusion predicates against the listed names (documented
+    set + the 5 recorded extra names) and a set of near-miss probes; complements the symbolic contracts (which reach the
+    loop of _is_hardcoded_excluded only through its invariant)."""
+    import pathlib
+    from pyvc.native import call_target
+    name = "custom:c14-excluded-set-native/listed-names"
+    listed = sorted(SPEC_EXCLUDED_DIRS | EXTRA_EXCLUDED_DIRS) + ["x.egg-info", "a.b.egg-info"]
+    probes = ["src", "pkg", "BUILD", "Dist", "build2", "xbuild", "venv2", ".venvs", "node_module", "egg-info", ".gitx", "git",
+              "__pycache", "cache", ".cache", "htmlcov2", "tox", "eggs", "x.egg-infos"]
+    cases = 0
+    try:
+        for nm, want in [(n, True) for n in listed] + [(n, False) for n in probes]:
+            for p in (pathlib.Path(nm) / "x.py", pathlib.Path("top") / nm / "deep" / "x.py", pathlib.Path("/abs") / "proj" / nm / "x.py"):
+                cases += 2
+                got = call_target(O + "_is_hardcoded_excluded", p)
+                inc = call_target(O + "_should_include_dir", nm)
+                if got != want or inc == want:
+                    return [dict(name=name, kind="bounded", verdict="refuted", carries=True, tool="native exhaustive over the listed set",
+                                 budget=f"{len(listed)} listed + {len(probes)} probe names", cases=cases, witness_confirmed=True,
+                                 witness={"name": nm, "path": str(p), "_is_hardcoded_excluded": got, "_should_include_dir": inc,
+                                          "expected_excluded": want},
+                                 note=f"{nm!r}: _is_hardcoded_excluded({str(p)!r}) = {got}, _should_include_dir = {inc}, expected excluded = {want}")]
+        for suf, want in [(s, True) for s in sorted(COMPILED_SUFFIXES)] + [(".py", False), (".ts", False), (".PYC", False), ("", False)]:
+            cases += 1
+            got = call_target(O + "_is_hardcoded_excluded", pathlib.Path("src") / ("m" + suf))
+            if got != want:
+                return [dict(name=name, kind="bounded", verdict="refuted", carries=True, tool="native exhaustive over the listed set",
+                             budget="suffix list", cases=cases, witness_confirmed=True, witness={"suffix": suf, "got": got},
+                             note=f"suffix {suf!r}: _is_hardcoded_excluded = {got}, expected {want}")]
+    except BaseException as e:  # noqa
+        return [dict(name=name, kind="bounded", verdict="unknown", carries=True, tool="native", cases=cases, note=f"harness error {e!r}"[:300])]
+    return [dict(name=name, kind="bounded", verdict="passed", carries=True, tool="native exhaustive over the listed set",
+                 budget=f"{len(listed)} listed + {len(probes)} probe names x 3 positions, {len(COMPILED_SUFFIXES)} suffixes", cases=cases,
+                 note="both predicates agree with the listed exclusion set at every position (first component, nested, absolute)")]
+
+
+# =================================================================== end-to-end bounded check at the property's observation point
+_PAT_POOL = ["gen/", "a.py", "src/*.py", "src/gen/*.py", "*/b.py", "build2/", "# a comment", "", "pkg/", "  c.py  ", "*.ts", "src/gen/"]
+_LINT_DIRS = ["src", "gen", "pkg", "build", "dist", ".venv", "node_modules", "x.egg-info", "build2", ".hidden", "htmlcov"]
+_LINT_FILES = ["a.py", "b.py", "c.py", "d.pyc", "e.so"]
+
+
+def _gen_lint_tree(rng, depth):
+    tree = {}
+    for _ in range(rng.randint(1, 3)):
+        if depth > 0 and rng.random() < 0.5:
+            nm = rng.choice(_LINT_DIRS)
+            if nm not in tree:
+                tree[nm] = _gen_lint_tree(rng, depth - 1)
+        else:
+            nm = rng.choice(_LINT_FILES)
+            if nm not in tree:
+                tree[nm] = None
+    return tree
+
+
+def _write_lint_tree(base, tree):
+    import os
+    for nm, sub in tree.items():
+        p = os.path.join(base, nm)
+        if sub is None:
+            with open(p, "w", encoding="utf-8") as fh:
+                fh.write("def planted():\n    return 3.14159 * 4242\n")
+        else:
+            os.mkdir(p)
+            _write_lint_tree(p, sub)
+
+
+def _files_of(tree, prefix=()):
+    out = []
+    for nm, sub in tree.items():
+        if sub is None:
+            out.append(prefix + (nm,))
+        else:
+            out += _files_of(sub, prefix + (nm,))
+    return out
+
+
+@custom("c14-lint-directory-bounded", props=["C14"])
+def lint_directory_bounded(ctx):
+    """BOUNDED, at the property's observation point: every .py file of a small real tree carries a planted
+    magic-number violation; Orchestrator.lint_directory(root) must report exactly the files that are not below an
+    excluded directory, not compiled artefacts and not matched by a .thailintignore pattern (the SAME spec functions
+    ign_fresh / code_excluded_dir evaluated natively), and an ignored/excluded file named explicitly (lint_file) must
+    contribute nothing."""
+    import os
+    import pathlib
+    import random
+    import shutil
+    import sys
+    import tempfile
+    n = 150 if ctx.get("tier", "quick") == "quick" else 1500
+    rng = random.Random(7919 * int(ctx.get("seed", 0)) + 141)
+    name = "custom:c14-lint-directory-bounded/lint_directory"
+    repo = ctx["repo"]
+    if repo not in sys.path:
+        sys.path.insert(0, repo)
+    base = tempfile.mkdtemp(prefix="c14lint_")
+    cases = ignored_cases = 0
+    try:
+        from src.orchestrator.core import Orchestrator
+        from src.linter_config.ignore import clear_ignore_parser_cache
+        for i in range(n):
+            tree = _gen_lint_tree(rng, 2)
+            root = pathlib.Path(base) / f"p{i}"
+            root.mkdir()
+            _write_lint_tree(str(root), tree)
+            raw = [rng.choice(_PAT_POOL) for _ in range(rng.randint(0, 2))]
+            if raw:
+                (root / ".thailintignore").write_text("\n".join(raw) + "\n", encoding="utf-8")
+            pats = [ln.strip() for ln in raw if ln.strip() and not ln.strip().startswith("#")]
+            clear_ignore_parser_cache()
+            orch = Orchestrator(project_root=root, config={})
+            want = set()
+            for parts in _files_of(tree):
+                f = root.joinpath(*parts)
+                skip = any(code_excluded_dir(c) for c in parts) or pathlib.PurePosixPath(parts[-1]).suffix in COMPILED_SUFFIXES \
+                    or ign_fresh(root, pats, f)
+                ignored_cases += bool(pats) and ign_fresh(root, pats, f)
+                if not skip and parts[-1].endswith(".py"):
+                    want.add("/".join(parts))
+                if skip:
+                    solo = [v for v in Orchestrator(project_root=root, config={}).lint_file(f) if v.rule_id.startswith("magic-numbers")]
+                    if solo:
+                        return [dict(name=name, kind="bounded", verdict="refuted", carries=True, tool="real-tree lint runs", cases=cases,
+                                     budget=f"{n} trees", witness_confirmed=True,
+                                     witness={"tree": tree, "thailintignore": raw, "file": "/".join(parts)},
+                                     note=f"excluded/ignored file {'/'.join(parts)} named explicitly contributes {len(solo)} violations; "
+                                          f"tree {tree} .thailintignore {raw}")]
+            vs = orch.lint_directory(root, recursive=True)
+            got = {os.path.relpath(v.file_path, str(root)) for v in vs if v.rule_id.startswith("magic-numbers")}
+            cases += 1
+            if got != want:
+                return [dict(name=name, kind="bounded", verdict="refuted", carries=True, tool="real-tree lint runs", cases=cases,
+                             budget=f"{n} trees", witness_confirmed=True,
+                             witness={"tree": tree, "thailintignore": raw, "got": sorted(got), "expected": sorted(want)},
+                             note=f"tree {tree} .thailintignore {raw}: reported {sorted(got)}, expected {sorted(want)}")]
+            shutil.rmtree(str(root), ignore_errors=True)
+    except BaseException as e:  # noqa
+        return [dict(name=name, kind="bounded", verdict="unknown", carries=True, tool="real-tree lint runs", cases=cases,
+                     budget=f"{n} trees", note=f"harness error: {e!r}"[:300])]
+    finally:
+        shutil.rmtree(base, ignore_errors=True)
+        try:
+            clear_ignore_parser_cache()
+        except BaseException:  # noqa
+            pass
+    if ignored_cases < max(3, n // 10):
+        return [dict(name=name, kind="bounded", verdict="unknown", carries=True, tool="real-tree lint runs", cases=cases,
+                     budget=f"{n} trees", note=f"generator too weak: only {ignored_cases} ignored files overall")]
+    return [dict(name=name, kind="bounded", verdict="passed", carries=True, tool="real-tree lint runs (tempfile.mkdtemp, removed)",
+                 budget=f"{n} trees, seed {ctx.get('seed', 0)}", cases=cases,
+                 note=f"{cases} directory runs report exactly the expected files; {ignored_cases} files matched a .thailintignore pattern")]
